@@ -17,7 +17,7 @@ from shangrla.raire.sample_estimator import bp_estimate, cp_estimate
 from vmc.ref import raire as R
 
 # candidate identifiers: distinct strings, some of which are substrings / prefixes of others (as numeric ids are)
-NAMES = ["1", "12", "2", "21", "121", "3", "31"]
+NAMES = ["1", "12", "1 2", "21", "121", "3", "31"]  # overlapping identifiers; "1 2" has a blank inside (it becomes "12" if blanks are dropped)
 LETTERS = "ABCDEFG"
 CON = "con1"
 FUNCS = {"bp": bp_estimate, "cp": cp_estimate}
